@@ -29,7 +29,9 @@ NAMES = [None, None, None, "Table 1", "table 1", "TABLE 2", "Table 2", "Table 3"
          # not in normalisation form C (the name given is the name kept and found), and their precomposed twins (different names)
          "Re\u0301sume\u0301", "R\u00e9sum\u00e9", "\u212b", "\u00c5", "Stra\u00dfe", "STRASSE", "\u03c2igma", "\u03c3igma",
          # names that read as numbers (a name is a name: lookup by the string finds that item, not a position)
-         "2024", "0", "1", "2", "-1", "007", "+3", "\u0661", "1e3", " 2 ", "0x10", "True", "None"]
+         "2024", "0", "1", "2", "-1", "007", "+3", "\u0661", "1e3", " 2 ", "0x10", "True", "None",
+         # names that read as patterns (a name is matched as a string, not as a glob or a regular expression)
+         "Table ?", "Table *", "T*", "*", "?", "Sheet [12]", "Q[1-4]", "Table 1|Table 2", ".*", "Table.1", "^Table 1$", "%s", "{0}"]
 
 
 def rule(tier):
